@@ -68,7 +68,8 @@ vars == <<tag, rd, pc, op, resp, orig, tamp, rep, hist, nadv, nops, nchal, last,
 
 NoOp   == [name |-> "none", pw |-> NoPw, bs |-> <<>>, b |-> "-", v |-> "-", outer |-> "none", rc |-> 0, wres |-> {}]
 NoLast == [op |-> "none", kind |-> "-", pw |-> NoPw, res |-> "-", d |-> <<>>, tamp |-> FALSE, rep |-> FALSE,
-           ck |-> Factory, gen |-> <<>>, sk |-> <<Factory, 0>>, iv |-> 0, trc |-> 0, tsk |-> <<Factory, 0>>]
+           ck |-> Factory, gen |-> <<>>, sk |-> <<Factory, 0>>, iv |-> 0, trc |-> 0, tsk |-> <<Factory, 0>>,
+           mac |-> FALSE, cached |-> FALSE, auth |-> FALSE, ver |-> FALSE]
 
 \* sk: the session key the card derived when RC was last written (it keeps it until the next RC write);
 \* id1: the first byte of the ID block is 01h (IDm of Sony chips starts with manufacturer code 01h)
@@ -76,7 +77,10 @@ TagInit(kind, ck, blk, locked, keychg, id1) ==
     [kind |-> kind, ck |-> ck, rc |-> 0, sk |-> <<ck, 0>>, wcnt |-> 0, ext |-> FALSE, blk |-> blk,
      locked |-> locked, keychg |-> keychg, nauth |-> FALSE, id1 |-> id1,
      wres |-> {}]      \* Lite-S: user blocks that may only be written after external authentication (MC bytes 8..9)
-RdInit == [has |-> FALSE, sk |-> <<Factory, 0>>, iv |-> 0, auth |-> FALSE]
+\* cset/cver/cd: the tag object's cached NDEF (tag._ndef): present, read while authenticated (FeliCa: every
+\* block MAC verified in the session the object is authenticated in), and what it holds
+RdInit == [has |-> FALSE, sk |-> <<Factory, 0>>, iv |-> 0, auth |-> FALSE, cset |-> FALSE, cver |-> FALSE, cd |-> <<>>]
+NoCacheOf(r) == [r EXCEPT !.cset = FALSE, !.cver = FALSE, !.cd = <<>>]
 
 InitWith(t) ==
     /\ tag = t /\ rd = RdInit /\ pc = "idle" /\ op = NoOp /\ resp = NoResp /\ orig = NoResp
@@ -100,7 +104,9 @@ Answer(p, r) == pc' = p /\ resp' = r /\ orig' = r /\ UNCHANGED <<last, nops>>
 Finish(res, d, tg, r, tm) ==
     /\ pc' = "idle" /\ resp' = NoResp /\ orig' = NoResp /\ nops' = nops + 1
     /\ last' = [op |-> op.name, kind |-> tag.kind, pw |-> op.pw, res |-> res, d |-> d, tamp |-> tm,
-                rep |-> rep, ck |-> tg.ck, gen |-> orig.d, sk |-> r.sk, iv |-> r.iv, trc |-> tg.rc, tsk |-> tg.sk]
+                rep |-> rep, ck |-> tg.ck, gen |-> orig.d, sk |-> r.sk, iv |-> r.iv, trc |-> tg.rc, tsk |-> tg.sk,
+                mac |-> (op.name = "read" \/ (op.name = "ndef" /\ rd.auth /\ tag.kind # "ntag")),
+                cached |-> FALSE, auth |-> r.auth, ver |-> r.cver]
 Idle == pc = "idle" /\ nops < MaxOps
 Begin(o) == op' = o /\ tamp' = FALSE /\ rep' = FALSE
             /\ UNCHANGED <<tag, hist, nadv, nchal, prot>>
@@ -145,7 +151,8 @@ AChk(out) ==
     /\ LET sk == <<Kdf(op.pw), op.rc>>
            ok == resp.hm /\ resp.m = MacOf(sk, op.rc, resp.d)
            tm == tamp \/ resp # orig
-           r1 == IF ok THEN [has |-> TRUE, sk |-> sk, iv |-> op.rc, auth |-> (tag.kind = "lite")] ELSE rd
+           \* Tag.authenticate: `if self._authenticated is True: self._ndef = None` (FelicaLiteS goes through it, too)
+           r1 == IF ok THEN [NoCacheOf(rd) EXCEPT !.has = TRUE, !.sk = sk, !.iv = op.rc, !.auth = (tag.kind = "lite")] ELSE rd
        IN /\ tamp' = tm /\ rd' = r1
           /\ IF ok /\ tag.kind = "lites"
              THEN out = "cont" /\ Goto("s_rwc") /\ UNCHANGED prot     \* FelicaLiteS.authenticate goes on
@@ -215,7 +222,7 @@ NChk(out) ==
     /\ pc = "n_chk" /\ resp.k # "badcount"
     /\ LET ok == resp.k = "data" /\ resp.d = <<DV(Kdf(op.pw)[2])>>
            tm == tamp \/ resp # orig
-           r1 == [rd EXCEPT !.auth = ok] IN
+           r1 == IF ok THEN [NoCacheOf(rd) EXCEPT !.auth = TRUE] ELSE [rd EXCEPT !.auth = FALSE] IN
          /\ tamp' = tm /\ rd' = r1
          /\ AuthFinish(out, IF ok THEN "True" ELSE "False", tag, r1, tm)
     /\ UNCHANGED <<tag, op, rep, hist, nadv, nchal>>
@@ -240,8 +247,9 @@ StartRead(bs) ==
 RRead ==
     /\ pc = "r_rd"
     /\ LET d == [i \in 1..Len(op.bs) |-> tag.blk[op.bs[i]]]
-           r == MacResp(d, MacOf(TagSK, tag.rc, d)) IN
-         /\ Answer("r_chk", r) /\ hist' = hist \cup {r}
+           plain == op.name = "ndef" /\ ~rd.auth          \* read_from_ndef_service is read_without_mac
+           r == IF plain THEN PlainResp(d) ELSE MacResp(d, MacOf(TagSK, tag.rc, d)) IN
+         /\ Answer("r_chk", r) /\ hist' = IF plain THEN hist ELSE hist \cup {r}
     /\ UNCHANGED <<tag, rd, op, tamp, rep, nadv, nchal, prot>>
 
 RChk(out) ==
@@ -255,22 +263,50 @@ RChk(out) ==
 \* (tt3.py Type3Tag.NDEF._read_attribute_data / _read_ndef_data; attribute block b1, message block b2)
 AttrBlock == "b1"
 MsgBlock  == "b2"
+\* Tag.ndef: `if self._ndef is None: ... read ...; return self._ndef`
 StartNdef ==
-    /\ Idle /\ Felica /\ rd.has /\ rd.auth
+    /\ Idle /\ ~rd.cset
     /\ Begin([NoOp EXCEPT !.name = "ndef", !.bs = <<AttrBlock>>, !.outer = "ndef"])
-    /\ Goto("r_rd") /\ UNCHANGED rd
+    /\ Goto(IF Felica THEN "r_rd" ELSE "nn_rd") /\ UNCHANGED rd
+
+\* the cached object is returned without a command on the wire
+NdefCached ==
+    /\ Idle /\ rd.cset
+    /\ op' = [NoOp EXCEPT !.name = "ndef", !.outer = "ndef"] /\ tamp' = FALSE /\ rep' = FALSE
+    /\ nops' = nops + 1
+    /\ last' = [op |-> "ndef", kind |-> tag.kind, pw |-> NoPw, res |-> "Data", d |-> rd.cd, tamp |-> FALSE, rep |-> FALSE,
+                ck |-> tag.ck, gen |-> rd.cd, sk |-> rd.sk, iv |-> rd.iv, trc |-> tag.rc, tsk |-> tag.sk,
+                mac |-> FALSE, cached |-> TRUE, auth |-> rd.auth, ver |-> rd.cver]
+    /\ UNCHANGED <<tag, rd, pc, resp, orig, hist, nadv, nchal, prot>>
+
+\* the application discards the cached object (a fresh tag object / tag._ndef = None)
+DropCache ==
+    /\ pc = "idle" /\ rd.cset /\ rd' = NoCacheOf(rd)
+    /\ UNCHANGED <<tag, pc, op, resp, orig, tamp, rep, hist, nadv, nops, nchal, last, prot>>
+
+\* NTAG21x: tag.ndef reads the pages (no MAC; what is readable / writeable depends on the authentication state)
+NNdefRead ==
+    /\ pc = "nn_rd" /\ Goto("nn_chk")
+    /\ UNCHANGED <<tag, rd, op, tamp, rep, hist, nadv, nchal, prot>>
+NNdefChk(out) ==
+    /\ pc = "nn_chk" /\ out \in {"Data", "None"}
+    /\ rd' = IF out = "Data" THEN [rd EXCEPT !.cset = TRUE, !.cver = rd.auth, !.cd = <<>>] ELSE rd
+    /\ Finish(out, <<>>, tag, rd', tamp)
+    /\ UNCHANGED <<tag, op, tamp, rep, hist, nadv, nchal, prot>>
 
 \* a failed MAC check makes read_with_mac return None, which the NDEF reader must turn into "no NDEF"
 NChkRead(out) ==
     /\ pc = "r_chk" /\ op.name = "ndef" /\ resp.k # "badcount"
     /\ tamp' = (tamp \/ resp # orig)
-    /\ IF ~RdMacOk
+    /\ LET ok == rd.auth => RdMacOk                   \* unauthenticated: nothing to verify, the data is taken as it comes
+           r1 == [rd EXCEPT !.cset = TRUE, !.cver = rd.auth, !.cd = resp.d] IN
+       IF ~ok
        THEN /\ out = "None" \/ ("ndef_none_subscript" \in Defects /\ out = "TypeError")   \* sum(None[0:14]) / data += None
-            /\ Finish(out, <<>>, tag, rd, tamp') /\ UNCHANGED op
+            /\ Finish(out, <<>>, tag, rd, tamp') /\ UNCHANGED <<op, rd>>
        ELSE IF op.bs = <<AttrBlock>>
-            THEN out = "cont" /\ op' = [op EXCEPT !.bs = <<MsgBlock>>] /\ Goto("r_rd")
-            ELSE out = "Data" /\ Finish("Data", resp.d, tag, rd, tamp') /\ UNCHANGED op
-    /\ UNCHANGED <<tag, rd, rep, hist, nadv, nchal, prot>>
+            THEN out = "cont" /\ op' = [op EXCEPT !.bs = <<MsgBlock>>] /\ Goto("r_rd") /\ UNCHANGED rd
+            ELSE out = "Data" /\ rd' = r1 /\ Finish("Data", resp.d, tag, r1, tamp') /\ UNCHANGED op
+    /\ UNCHANGED <<tag, rep, hist, nadv, nchal, prot>>
 
 \* ---- FelicaLiteS.write_with_mac(data, block) --------------------------------------------------
 StartWrite(b, v) ==
@@ -326,9 +362,10 @@ PWriteMC(out) ==
     /\ pc = "p_wmc" /\ out = "True"
     /\ tag' = [tag EXCEPT !.locked = TRUE, !.keychg = (tag.kind = "lites"),
                          !.wres = IF tag.kind = "lites" THEN op.wres ELSE @]
-    /\ Finish("True", <<>>, tag', rd, FALSE)
+    /\ rd' = NoCacheOf(rd)                             \* Tag.protect: `if status is True: self._ndef = None`
+    /\ Finish("True", <<>>, tag', rd', FALSE)
     /\ prot' = [set |-> TRUE, k |-> tag.ck]
-    /\ UNCHANGED <<rd, op, tamp, rep, hist, nadv, nchal>>
+    /\ UNCHANGED <<op, tamp, rep, hist, nadv, nchal>>
 
 \* ---- the adversary on the channel (responses of authenticate / read_with_mac / write_with_mac) --
 InFlight == InFlightPc
@@ -337,6 +374,8 @@ Adv(r) == resp' = r /\ nadv' = nadv + 1
           /\ UNCHANGED <<tag, rd, pc, op, orig, tamp, hist, nops, nchal, last, prot>>
 
 AdvFlipData(i) == /\ AdvOk("flipdata") /\ resp.k = "data" /\ i \in 1..Len(resp.d)
+                  \* (an unauthenticated attribute block is parsed, not verified: outside the model)
+                  /\ ~(op.name = "ndef" /\ ~rd.auth /\ op.bs = <<AttrBlock>>)
                   /\ Adv([resp EXCEPT !.d[i] = FlipV(@)]) /\ UNCHANGED rep
 AdvFlipMac     == /\ AdvOk("flipmac") /\ resp.hm /\ resp.k = "data"
                   /\ Adv([resp EXCEPT !.m = FlipV(@)]) /\ UNCHANGED rep
@@ -356,9 +395,9 @@ AdvReplay(h)   == /\ AdvOk("replay") /\ resp.k # "badcount" /\ h \in hist /\ h #
                   /\ Adv(h) /\ rep' = TRUE
 
 Outcomes == {"cont", "True", "False", "None", "Data", "TagCommandError", "TypeError", "AttributeError"}
-Check(out) == BadCountChk(out) \/ AChk(out) \/ SChk(out) \/ NChk(out) \/ RChk(out) \/ NChkRead(out) \/ SWriteState(out) \/ WWrite(out)
+Check(out) == BadCountChk(out) \/ AChk(out) \/ SChk(out) \/ NChk(out) \/ RChk(out) \/ NChkRead(out) \/ NNdefChk(out) \/ SWriteState(out) \/ WWrite(out)
               \/ PReadCfg(out) \/ PWriteKey(out) \/ PWriteMC(out)
-Command == AWriteRC \/ AReadId \/ SReadWcnt \/ SReadState \/ NPwd \/ RRead
+Command == AWriteRC \/ AReadId \/ SReadWcnt \/ SReadState \/ NPwd \/ RRead \/ NNdefRead
 
 BlockLists == {<<b>> : b \in Blocks} \cup {<<a, b>> : a, b \in Blocks}
 
@@ -366,7 +405,7 @@ Next ==
     \/ \E pw \in Pws : StartAuth(pw) \/ StartProtect(pw, {}) \/ StartProtect(pw, Blocks)
     \/ \E bs \in BlockLists : StartRead(bs)
     \/ \E b \in Blocks, v \in Vals : StartWrite(b, v)
-    \/ StartNdef
+    \/ StartNdef \/ NdefCached \/ DropCache
     \/ Command
     \/ \E out \in Outcomes : Check(out)
     \/ \E i \in 1..2 : AdvFlipData(i)
@@ -394,7 +433,7 @@ ProtectKeyP(l, p, tg, idle) == /\ p.set => tg.ck = p.k
 ProtectThenAuthP(l, p) == (l.op = "auth" /\ p.set /\ ~l.tamp /\ l.res \in {"True", "False"})
                               => ((l.res = "True") <=> (Kdf(l.pw) = p.k))
 \* data is returned only if it is what the tag sent for this request (no modification survives) ...
-IsRead(l) == l.op \in {"read", "ndef"}
+IsRead(l) == l.op = "read" \/ (l.op = "ndef" /\ l.mac)
 MacReadFreshP(l) == (IsRead(l) /\ l.res = "Data" /\ ~l.rep) => l.d = l.gen
 \* ... and even with replays only data the tag itself authenticated in the reader's session
 MacReadAuthenticP(l, h) == (IsRead(l) /\ l.res = "Data") => MacResp(l.d, MacOf(l.sk, l.iv, l.d)) \in h
@@ -408,8 +447,12 @@ ProtectThenAuth == ProtectThenAuthP(last, prot)
 MacReadFresh    == MacReadFreshP(last)
 MacReadAuthentic == MacReadAuthenticP(last, hist)
 MacReadComplete == MacReadCompleteP(last)
+\* what an authenticated tag object hands out as tag.ndef was read while authenticated (FeliCa: MAC verified in
+\* that session) - never an object cached from before the authentication
+NdefVerifiedP(l) == (l.op = "ndef" /\ l.res = "Data" /\ l.auth) => l.ver
+NdefVerified == NdefVerifiedP(last)
 
-TypeOK == /\ pc \in {"idle", "a_wrc", "a_rid", "a_chk", "s_rwc", "s_wst", "s_rst", "s_chk", "n_pwd", "n_chk",
+TypeOK == /\ pc \in {"idle", "nn_rd", "nn_chk", "a_wrc", "a_rid", "a_chk", "s_rwc", "s_wst", "s_rst", "s_chk", "n_pwd", "n_chk",
                      "r_rd", "r_chk", "w_wr", "p_rmc", "p_wck", "p_wmc"}
           /\ nadv \in 0..MaxAdv /\ nops \in 0..MaxOps /\ nchal \in 0..MaxChal
           /\ tag.ck \in Keys /\ tag.rc \in 0..MaxChal
@@ -433,6 +476,9 @@ W_NdefTypeError   == ~(last.op = "ndef" /\ last.res = "TypeError")
 W_BadCountAuth    == ~(last.op = "auth" /\ last.res = "TagCommandError" /\ last.kind = "lite")
 W_BadCountRead    == ~(last.op = "read" /\ last.res = "TagCommandError")
 W_BadCountProtect == ~(last.op = "protect" /\ last.res = "TagCommandError" /\ last.tamp)
+W_NdefCached      == ~(last.op = "ndef" /\ last.cached /\ last.auth /\ last.ver)
+W_NdefUnauthForged == ~(last.op = "ndef" /\ last.res = "Data" /\ ~last.auth /\ last.tamp)
+W_NdefReadAgain   == ~(last.op = "ndef" /\ last.res = "Data" /\ last.auth /\ ~last.cached /\ nops = 3)
 W_WriteOk         == ~(last.op = "write" /\ last.res = "None")
 W_WriteRefused    == ~(last.op = "write" /\ last.res = "TagCommandError")
 W_WriteNeedsAuth  == ~(last.op = "write" /\ last.res = "TagCommandError" /\ ~last.tamp /\ last.sk = last.tsk /\ last.iv = last.trc)
